@@ -64,15 +64,24 @@ static void obs_point(const char *id) {
 	else observe("point_state", "unknown");
 	if (q.known) bidib_free_unified_accessory_state_query(q);
 }
+static void obs_accessories_snapshot(void) {
+	t_bidib_track_state s = bidib_get_state();
+	for (size_t i = 0; i < s.points_board_count; i++) if (!strcmp(s.points_board[i].id, "point1")) observe("snapshot.point", "point1 id=%s val=%u exec=%d", s.points_board[i].data.state_id ? s.points_board[i].data.state_id : "-", s.points_board[i].data.state_value, (int) s.points_board[i].data.execution_state);
+	for (size_t i = 0; i < s.signals_board_count; i++) if (!strcmp(s.signals_board[i].id, "signal1")) observe("snapshot.signal", "signal1 id=%s val=%u", s.signals_board[i].data.state_id ? s.signals_board[i].data.state_id : "-", s.signals_board[i].data.state_value);
+	for (size_t i = 0; i < s.peripherals_count; i++) if (!strcmp(s.peripherals[i].id, "led1")) observe("snapshot.peripheral", "led1 id=%s val=%u", s.peripherals[i].data.state_id ? s.peripherals[i].data.state_id : "-", s.peripherals[i].data.state_value);
+	bidib_free_track_state(s);
+}
 /* the update messages of each harness, applied by the receiver */
 typedef struct { int board; uint8_t type; uint8_t d[10]; int dl; } upd_t;
-static const upd_t UPD[5][4] = {
+static const upd_t UPD[6][4] = {
 	[1] = { {0, MSG_BM_OCC, {0}, 1}, {0, MSG_BM_ADDRESS, {0, 0x23, 0x01}, 3}, {1, MSG_BM_OCC, {0}, 1} },
 	[2] = { {0, MSG_BM_OCC, {0}, 1}, {0, MSG_BM_ADDRESS, {0, 0x23, 0x81}, 3}, {0, MSG_BM_ADDRESS, {1, 0x23, 0x81}, 3}, {0, MSG_CS_DRIVE_MANUAL, {0x23, 0x01, 3, 0x03, 0x8A, 0x10, 0, 0, 0}, 9} },
 	[3] = { {0, MSG_SYS_PONG, {1}, 1}, {0, MSG_SYS_PONG, {2}, 1}, {0, MSG_NODE_NA, {3}, 1} },
 	[4] = { {0, MSG_CS_ACCESSORY_ACK, {0x22, 0x11, 1}, 3}, {0, MSG_CS_ACCESSORY_MANUAL, {0x22, 0x11, 0x21}, 3} },
+	/* H7: board accessories and peripherals (their state ids are strings the receiver frees and replaces) */
+	[5] = { {1, MSG_ACCESSORY_STATE, {2, 0, 2, 0, 0}, 5}, {1, MSG_ACCESSORY_STATE, {2, 1, 2, 0, 0}, 5}, {2, MSG_LC_STAT, {0x23, 0x01, 1}, 3}, {2, MSG_ACCESSORY_STATE, {0x10, 2, 2, 0, 0}, 5} },
 };
-static const int NUPD[5] = {0, 3, 4, 3, 2};
+static const int NUPD[6] = {0, 3, 4, 3, 2, 4};
 static void queue_update(int h, int i) { const upd_t *u = &UPD[h][i]; uint8_t m[40], f[90]; int ml = rc_build_msg(m, SB.n[M.b[u->board].sbnode].addr, 0, u->type, u->d, u->dl); env_push_quiet(f, rc_frame(f, m, (size_t) ml, 1)); }
 
 static void *h_t1(void *p) { (void) p;
@@ -81,6 +90,7 @@ static void *h_t1(void *p) { (void) p;
 	case 2: obs_train("train1"); obs_segment("seg1"); obs_position("train1"); break;
 	case 3: free(bidib_read_message()); free(bidib_read_error_message()); break;
 	case 4: bidib_switch_point("pointd", "reverse"); bidib_set_signal("signald", "go"); break;
+	case 5: obs_point("point1"); obs_accessories_snapshot(); obs_point("point1"); break;
 	} return NULL; }
 static void *h_t2(void *p) { (void) p;
 	switch (harness_id) {
@@ -88,6 +98,7 @@ static void *h_t2(void *p) { (void) p;
 	case 2: obs_snapshot(); obs_train("train1"); break;
 	case 3: free(bidib_read_message()); free(bidib_read_message()); break;
 	case 4: obs_point("pointd"); obs_point("pointd"); obs_point("point1"); break;
+	case 5: obs_accessories_snapshot(); obs_accessories_snapshot(); break;
 	} return NULL; }
 
 #if defined(VARIANT_TSAN)
@@ -113,6 +124,7 @@ static void c10_child(const void *job, size_t n) {
 		for (int step = 0; ; step++) {
 			int before = nobs;
 			if (harness_id == 2) { obs_train("train1"); obs_segment("seg1"); obs_position("train1"); obs_snapshot(); } else if (harness_id == 4) { obs_point("pointd"); obs_point("point1"); }
+			else if (harness_id == 5) { obs_point("point1"); obs_accessories_snapshot(); }
 			for (int k = before; k < nobs; k++) res_printf("R %s\t%s\n", obs_name[k], obs[k]);
 			nobs = before;
 			if (harness_id == 4 ? step >= 4 : nu >= NUPD[harness_id]) break;
@@ -122,10 +134,12 @@ static void c10_child(const void *job, size_t n) {
 		res_printf("O 0 0\n"); res_finish();
 	}
 	for (int i = 0; i < NUPD[harness_id]; i++) queue_update(harness_id, i);
+	vs_unlock_points = harness_id == 5;     /* H7: what a getter still reads after it dropped the lock is exposed to the receiver */
 	vs_window(1);
 	int t1 = vs_spawn(h_t1, NULL), t2 = vs_spawn(h_t2, NULL);
 	vs_join_tid(t1); vs_join_tid(t2); hx_quiesce();
 	vs_window(0);
+	vs_unlock_points = 0;
 	if (harness_id == 1) { vs_sleep_us(20000); hx_quiesce(); }
 	hx_hash_t h; hx_hash_init(&h);
 	for (int k = 0; k < nobs; k++) { hx_hash_str(&h, obs[k]);
@@ -133,7 +147,7 @@ static void c10_child(const void *job, size_t n) {
 		if (explen > 0) { char key[520]; int kl = snprintf(key, sizeof key, "%s\t%s\n", obs_name[k], obs[k]); if (!memmem(expected, explen, key, (size_t) kl)) {
 			char cls[160]; snprintf(cls, sizeof cls, "torn-read getter=%s: a getter returned a state that never existed", obs_name[k]); res_violation(cls, "observed: %s", obs[k]); } } }
 #if defined(VARIANT_TSAN)
-	static const char *HN[5] = {"", "H1 senders||receiver||auto-flush", "H2 receiver||getters||snapshot", "H3 readers||receiver", "H4 DCC setters||getters||receiver"};
+	static const char *HN[6] = {"", "H1 senders||receiver||auto-flush", "H2 receiver||getters||snapshot", "H3 readers||receiver", "H4 DCC setters||getters||receiver", "H7 receiver(board accessories, peripherals)||snapshot||getter"};
 	emit_races(HN[harness_id]);
 #endif
 	san_tsan_ignore(1);
@@ -172,7 +186,7 @@ static int e1_variants(int e, int *out) {
 }
 static void *pair_t(void *arg) { int which = (int) (intptr_t) arg; int e = which ? pair_b : pair_a; int vs[24]; int nv = pair_single ? e1_variants(e, vs) : pair_variants(e, vs);
 	for (int i = 0; i < nv; i++) run_entry(e, vs[i]);
-	if (which && pair_rx_mode == 1) queue_rx_batch();
+	if (which && pair_rx_mode >= 1) queue_rx_batch();
 	return NULL; }
 static void c10_pair_child(const void *job, size_t n) {
 	vs_dev_t devs[VS_MAXDEV]; int nd; size_t pl; const uint8_t *p = job_parse(job, n, devs, &nd, &pl);
@@ -187,10 +201,11 @@ static void c10_pair_child(const void *job, size_t n) {
 	hx_hash_t h; hx_hash_init(&h); long npairs = 0;
 	for (int k = from; k < from + count && k < NE * NE; k++) {
 		pair_a = k / NE; pair_b = k % NE;
-		char what[200]; snprintf(what, sizeof what, "H5 %s || %s || receiver(batch %s)", entry_name(pair_a), entry_name(pair_b), pair_rx_mode ? "last" : "first");
+		char what[200]; snprintf(what, sizeof what, "H5 %s || %s || receiver(batch %s)", entry_name(pair_a), entry_name(pair_b), pair_rx_mode == 2 ? "before and after" : pair_rx_mode ? "last" : "first");
 		hx_set_context(what); res_progress(k);
 		vs_sleep_us(2500000); hx_quiesce();
 		san_reset(); san_tsan_ignore(0);
+		if (pair_rx_mode == 2) { queue_rx_batch(); vs_point(); hx_quiesce(); }      /* populate first, so that the update AFTER the calls replaces state the calls have read */
 		if (pair_rx_mode == 0) queue_rx_batch();
 		vs_window(1);
 		int t1 = vs_spawn(pair_t, (void *) (intptr_t) 0), t2 = vs_spawn(pair_t, (void *) (intptr_t) 1);
@@ -307,7 +322,7 @@ void c10_run_lin(int bound, long *execs, long *states, long *transitions, int *e
 	*execs += sched;
 	rep_note("H6 linearizability of concurrent high-level commands: %ld pairs of %d commands (%ld pairs commute), %ld schedules, completed preemption bound %d", npairs, N_LIN, commuting, sched, minb);
 }
-static char refbuf[5][8192]; static size_t reflen[5];
+static char refbuf[6][8192]; static size_t reflen[6];
 typedef struct { int32_t from, count; uint8_t rx_mode, single; } pjob_t;
 static pjob_t *pjobs; static long npjobs, cappjobs, pround_base;
 static void padd(long from, long count, int mode) { if (count <= 0) return; if (npjobs == cappjobs) { cappjobs = cappjobs ? cappjobs * 2 : 1024; pjobs = realloc(pjobs, sizeof(pjob_t) * (size_t) cappjobs); }
@@ -315,7 +330,7 @@ static void padd(long from, long count, int mode) { if (count <= 0) return; if (
 static size_t pair_payload(const pjob_t *j, uint8_t *payload) { memcpy(payload, &j->from, 4); memcpy(payload + 4, &j->count, 4); payload[8] = j->rx_mode; payload[9] = j->single; return 10; }
 static size_t pair_gen(long idx, uint8_t *payload, char *human, size_t hn) {
 	pjob_t *j = &pjobs[pround_base + idx]; int NE = N_HL + N_LL;
-	snprintf(human, hn, "%spairs %d..%d (first: %s || %s) receiver batch %s", j->count == 1 ? "single case " : "", j->from, j->from + j->count - 1, entry_name(j->from / NE), entry_name(j->from % NE), j->rx_mode ? "last" : "first");
+	snprintf(human, hn, "%spairs %d..%d (first: %s || %s) receiver batch %s", j->count == 1 ? "single case " : "", j->from, j->from + j->count - 1, entry_name(j->from / NE), entry_name(j->from % NE), j->rx_mode == 2 ? "before and after" : j->rx_mode ? "last" : "first");
 	return pair_payload(j, payload);
 }
 static long presume[4096][2]; static int npresume;
@@ -332,6 +347,10 @@ static void run_pairs(int thorough, int tsan, long *execs, long *states, long *t
 	for (int mode = 0; mode <= (thorough ? 1 : 0); mode++) for (int a = 0; a < NE; a++) { if (excluded_entry(a)) continue;
 		/* one job per row a; pairs with an excluded b are skipped in the child by splitting the row */
 		int b0 = 0; for (int b = 0; b <= NE; b++) if (b == NE || excluded_entry(b)) { padd((long) a * NE + b0, b - b0, mode); planned += b - b0; b0 = b + 1; } }
+	/* the receiver batch BEFORE (state populated) and AFTER the calls, for every call paired with itself — a getter that reads
+	 * something after it has dropped the lock is only unordered against an update that comes later and replaces what it read
+	 * (happens-before needs no real overlap) */
+	for (int a = 0; a < NE; a++) if (!excluded_entry(a)) { padd((long) a * NE + a, 1, 2); planned++; }
 	/* split rows into batches of 48 pairs */
 	{ long n0 = npjobs; pjob_t *old = malloc(sizeof(pjob_t) * (size_t) n0); memcpy(old, pjobs, sizeof(pjob_t) * (size_t) n0); npjobs = 0;
 	  for (long i = 0; i < n0; i++) for (long s0 = 0; s0 < old[i].count; s0 += 48) padd(old[i].from + s0, old[i].count - s0 < 48 ? old[i].count - s0 : 48, old[i].rx_mode); free(old); }
@@ -369,8 +388,8 @@ int c10_run(const char *tier) {
 	int thorough = !strcmp(tier, "thorough");
 	const char *variant = getenv("VERIF_VARIANT"); int tsan = variant && !strcmp(variant, "tsan");
 	long execs = 0, states = 0, transitions = 0; int exhaustive = 1;
-	static const char *HN[5] = {"", "H1 senders||receiver||auto-flush", "H2 receiver||getters||snapshot", "H3 readers||receiver", "H4 DCC setters||getters||receiver"};
-	for (int hn = 1; hn <= 4; hn++) {
+	static const char *HN[6] = {"", "H1 senders||receiver||auto-flush", "H2 receiver||getters||snapshot", "H3 readers||receiver", "H4 DCC setters||getters||receiver", "H7 receiver(board accessories, peripherals)||snapshot||getter"};
+	for (int hn = 1; hn <= 5; hn++) {
 		reflen[hn] = 0;
 		if (!tsan && (hn == 1 || hn == 3)) continue;     /* no atomicity oracle for these: they are there for the race detector (exactly-one-reader is C06's) */
 		if (!tsan) for (int ord = 1; ord <= (hn == 4 ? 6 : 1); ord++) {   /* sequential reference values */
@@ -382,6 +401,7 @@ int c10_run(const char *tier) {
 		}
 		uint8_t param[8300]; param[0] = (uint8_t) hn; param[1] = 0; memcpy(param + 2, refbuf[hn], reflen[hn]);
 		int bound = tsan ? (thorough ? 2 : 1) : (thorough ? 3 : 2);
+		if (hn == 5) bound = thorough ? 2 : 1;       /* with a scheduling point after every unlock the harness has three times as many choice points */
 		if (getenv("VERIF_BOUND")) bound = atoi(getenv("VERIF_BOUND"));
 		e1_spec_t s = { .harness = "c10.h", .param = param, .nparam = 2 + reflen[hn], .bound = bound, .label = HN[hn] };
 		e1_explore(&s);
